@@ -436,6 +436,17 @@ def random_chooser(rng, batch_prob: float = 0.0):
     return choose
 
 
+def waves_chooser():
+    """Completes everything that is not a storage operation first and then ALL open storage operations in the same tick:
+    builds the largest backlog the pipeline can have and makes several operations finish in one wake-up."""
+    def choose(labels):
+        other = [i for i, l in enumerate(labels) if l[0] not in ("write", "read")]
+        # non-storage operations one at a time (simultaneous completions multiply the linearisations the correspondence
+        # has to try), storage operations at most three at once
+        return other[:1] if other else list(range(min(len(labels), 3)))
+    return choose
+
+
 def scripted_chooser(script: Sequence[Sequence[int]], default_first: bool = True):
     """Follows `script` (list of index lists); afterwards always releases gate 0."""
     it = iter(script)
